@@ -50,6 +50,11 @@ TABLE = [
      "generic TLV/LV over all types and value lengths 0..255 with continuation octets; six concrete TLVs over action x status x names (multi-octet characters) through "
      "unpack / from_tlv / holder; all 144 (action,status) pairs through the mapping helpers; every (class, foreign type, route) combination must raise the mismatch error",
      ORACLE_NOTE, "DESIGN.md section 4 C08"),
+    ("C10", "exploration",
+     PBT + " over a table of 53 public decoder entry points: arbitrary octets, exhaustive truncation points and header/length-field substitutions of valid units, CRC re-patching; oracle = allowed-exception table + watchdog",
+     "per decoder family: arbitrary and structured-noise buffers, every strict prefix of generated valid units (self-delimiting units must be refused), single-octet substitutions at every header index and "
+     "length-field rewrites incl. consistently shortened units, with the checksum re-patched over the declared extent in half the cases; any outcome other than a return or a documented error class (or a 10 s watchdog expiry) is a violation",
+     ORACLE_NOTE + "; the table of documented error classes in vf/excs.py; termination is observed with a watchdog, not proved", "DESIGN.md section 4 C10"),
     ("C11", "exploration",
      "model-based testing: one Hypothesis rule-based state machine per mutable packet class against reference encoders and a fresh-object model; plain @given for the caller-input clause",
      "setter / pack / decode-and-continue histories of up to 30 steps on PusTc, PusTm, EOF, Finished, Metadata, NAK, File Data, Keep Alive and USLP frames over all header configurations: after "
